@@ -138,6 +138,8 @@ def build():
     st3 = extract_item(P, r'pub\(crate\) struct BatchOpenedValuesTargets<SC: StarkGenericConfig>').replace('BatchOpenedValuesTargets<SC: StarkGenericConfig>', 'BatchOpenedValuesTargets').replace('OpenedValuesTargetsWithLookups<SC>', 'OpenedValuesTargetsWithLookups').replace('pub(crate) ', 'pub ')
     st4 = extract_item('recursion/src/pcs/fri/targets.rs', r'pub struct MerkleCapTargets<F, const DIGEST_ELEMS: usize>').replace('MerkleCapTargets<F, const DIGEST_ELEMS: usize>', 'MerkleCapTargets<const DIGEST_ELEMS: usize>').replace('PhantomData<F>', 'PhantomData<()>').replace('    _phantom', '    pub _phantom')
     u.text('verus! {\n' + st + '\n' + st2 + '\n' + st3 + '\n' + st4 + '\n}')
+    from vf.unit import CHUNKS_STUBS
+    u.text(CHUNKS_STUBS)
     u.text(SPEC)
     IMPL = r'impl<SC: StarkGenericConfig> Recursive<SC::Challenge> for OpenedValuesTargets<SC>'
 
@@ -148,6 +150,9 @@ def build():
     n.rewrite_re('R12', r'\bSelf \{', 'OpenedValuesTargets {', min_count=1)
     n.rewrite_re('R11', r'<SC::Challenge as BasedVectorSpace<Val<SC>>>::DIMENSION', 'challenge_dimension_()', min_count=0)
     from vf.unit import unmap_iter_collect_general
+    from vf.unit import unchunks_to_vec_collect
+    n.body = re.sub(r'circuit\s+\.alloc_private_inputs', 'circuit.alloc_private_inputs', n.body)
+    unchunks_to_vec_collect(n)
     n.body = re.sub(r'\binput\s+\.\s*(\w+)', r'input.\1', n.body)
     unmap_iter_collect_general(n)
     n.rewrite_re('SPEC-type', r'let mut (v_m\d+_) = Vec::new\(\);', r'let mut \1: Vec<Vec<ExprId>> = Vec::new();', min_count=0)
